@@ -621,13 +621,19 @@ func perSession(src, sid int) []Frame {
 	}
 }
 
-func alphabet(peers int, sids []int) []Frame {
+// alphabet: PADI, PADR and the per-session symbols for every (peer, id in sids); for the ids in
+// unknown (never issued in these runs) only the four symbols that could do harm without a session.
+func alphabet(peers int, sids, unknown []int) []Frame {
 	var a []Frame
 	for p := 0; p < peers; p++ {
 		a = append(a, Frame{Src: p, Dst: 0, Et: "disc", Code: 0x09, L: "padi", Tags: []Tag{{T: 0x0101, V: []byte{}}}})
 		a = append(a, disc(p, 0x19, 0, "padr", Tag{T: 0x0101, V: []byte{}}, cookie))
 		for _, s := range sids {
 			a = append(a, perSession(p, s)...)
+		}
+		for _, s := range unknown {
+			ps := perSession(p, s)
+			a = append(a, ps[0], ps[3], ps[5], ps[10]) // padt, lcp-termreq, pap-good, ipcp-confack
 		}
 	}
 	return a
@@ -849,12 +855,12 @@ func main() {
 		alpha []Frame
 	}
 	pool := Cfg{Radius: true, Pool: "10.1.0.0/29", Gateway: "10.1.0.1", DNS1: "9.9.9.9"}
-	runs := []exRun{{"radius+pool", pool, 4, alphabet(2, []int{1, 2, 7})}}
+	runs := []exRun{{"radius+pool", pool, 4, alphabet(2, []int{1, 2}, []int{7})}}
 	if cfg.Thorough() {
 		runs = []exRun{
-			{"radius+pool", pool, 5, alphabet(2, []int{1, 2, 7})},
-			{"no-radius", Cfg{Radius: false, Pool: "10.1.0.0/29", Gateway: "10.1.0.1"}, 4, alphabet(2, []int{1, 2, 7})},
-			{"no-pool", Cfg{Radius: true}, 4, alphabet(2, []int{1, 2})},
+			{"radius+pool", pool, 5, alphabet(2, []int{1, 2, 7}, nil)},
+			{"no-radius", Cfg{Radius: false, Pool: "10.1.0.0/29", Gateway: "10.1.0.1"}, 4, alphabet(2, []int{1, 2, 7}, nil)},
+			{"no-pool", Cfg{Radius: true}, 4, alphabet(2, []int{1, 2}, nil)},
 		}
 	}
 	exMeta := map[string]interface{}{"exhaustive": true,
@@ -869,7 +875,7 @@ func main() {
 		exMeta["run:"+er.name] = map[string]int{"depth": er.depth, "alphabet": len(er.alpha), "sequences": len(res), "distinct_states": states}
 	}
 	ecfg := cfg
-	ecfg.Shard = 1000 // short cases sharing most sub-terms: bigger shards amortise coqc start-up
+	ecfg.Shard = 600 // short cases sharing most sub-terms: bigger shards amortise coqc start-up
 	vh.Emit(ecfg, "exhaustive", header, foot, ex, exMeta)
 
 	// random stream
@@ -887,5 +893,7 @@ func main() {
 	for _, rc := range runMany(rcs) {
 		cases = append(cases, it.build(rc))
 	}
-	vh.Emit(cfg, "random", header, foot, cases, nil)
+	rcfg := cfg
+	rcfg.Shard = 60 // long cases: smaller shards spread over the evaluation workers
+	vh.Emit(rcfg, "random", header, foot, cases, nil)
 }
